@@ -483,6 +483,13 @@ class StatelessChild(NativeStateless):
     """Still no training implementation."""
 
 
+class StatefulChild(NativeStateless):
+    """A training implementation added below a stateless parent (the parent is asked for its statefulness first)."""
+
+    def train(self, features, labels, /):
+        self.seen = (features, labels)
+
+
 class _NoFit:
     def predict(self, *features):
         return features
